@@ -305,7 +305,15 @@ static J run(const J& c)
     if (op == "split")
     {
         std::string h = c["a1"].as_bytes(), n = c["a2"].as_bytes();
-        return guarded([&](J& o) { o.set("out", J::bytes_list(nitro::lang::split(h, n))); });
+        return guarded([&](J& o) {
+            o.set("out", J::bytes_list(nitro::lang::split(h, n)));
+            // the same call with temporaries / a const object as arguments: value category does not matter
+            J alts = J::arr();
+            alts.push(J::bytes_list(nitro::lang::split(std::string(h), std::string(n))));
+            const std::string ch = h, cn = n;
+            alts.push(J::bytes_list(nitro::lang::split(ch, cn)));
+            o.set("alts", alts);
+        });
     }
     if (op == "replace")
     {
@@ -324,8 +332,20 @@ static J run(const J& c)
             o.set("out_iter", J::bytes(nitro::lang::join(elems.begin(), elems.end(), infix)));
             if (infix == " ")
                 o.set("out_default", J::bytes(nitro::lang::join(elems)));
+#ifndef VERIF_MINIMAL
             std::list<std::string> l(elems.begin(), elems.end());
             o.set("out_list", J::bytes(nitro::lang::join(l.begin(), l.end(), infix)));
+            // the list as a temporary (moved copy, function result), as a const object, over const iterators
+            J alts = J::arr();
+            auto copy = elems;
+            alts.push(J::bytes(nitro::lang::join(std::move(copy), infix)));
+            auto make = [&]() { return elems; };
+            alts.push(J::bytes(nitro::lang::join(make(), std::string(infix))));
+            const auto celems = elems;
+            alts.push(J::bytes(nitro::lang::join(celems, infix)));
+            alts.push(J::bytes(nitro::lang::join(celems.cbegin(), celems.cend(), infix)));
+            o.set("alts", alts);
+#endif
         });
     }
     if (op == "starts")
@@ -335,6 +355,10 @@ static J run(const J& c)
             J r = J::arr();
             r.push(J(nitro::lang::starts_with(f, b) ? 1 : 0));
             o.set("out", r);
+            J alts = J::arr(), r2 = J::arr();
+            r2.push(J(nitro::lang::starts_with(std::string(f), std::string(b)) ? 1 : 0));
+            alts.push(r2);
+            o.set("alts", alts);
         });
     }
     if (op == "format")
